@@ -329,3 +329,48 @@ Fixpoint render (ts : list otok) : list Z :=
 Definition plain (c : Z) : bool :=
   negb (in_list c [ch_lpar; ch_rpar; ch_caret; ch_dot; ch_dollar; ch_plus; ch_bar; ch_bsl;
                     ch_lbrace; ch_comma; ch_rbrace; ch_star; ch_quest; ch_lbrk; ch_rbrk]).
+
+(* ---- well-formed pattern TEXT and the token sequence it denotes ------------------------------------ *)
+(* characters allowed inside [..]: plain, and not '-' (range sign), '!' (negation sign), '/' (a part
+   never contains it); characters of a {..} string: plain and not '/' *)
+Definition cplain (c : Z) : bool :=
+  plain c && negb (c =? ch_minus) && negb (c =? ch_bang) && negb (c =? ch_slash).
+Definition aplain (c : Z) : bool := plain c && negb (c =? ch_slash).
+(* a range a-b: a <= b and '/' not inside *)
+Definition item_ok (it : Z * Z) : bool :=
+  cplain (fst it) && cplain (snd it) && (fst it <=? snd it)
+  && negb ((fst it <=? ch_slash) && (ch_slash <=? snd it)).
+Definition tok_ok (t : otok) : bool :=
+  match t with
+  | OLit c => plain c
+  | OAny => true
+  | OStar => true
+  | OClass _ items => match items with [] => false | _ :: _ => forallb item_ok items end
+  | OAlt alts => match alts with [] => false | _ :: _ => forallb (forallb aplain) alts end
+  end.
+
+(* pat_text ts p: p is a well-formed OSC 1.0 address pattern text and ts the tokens it denotes.
+   A '-' written just before the closing ']' of a class is allowed and means nothing. *)
+Inductive pat_text : list otok -> list Z -> Prop :=
+| PT_nil : pat_text [] []
+| PT_lit : forall c ts p, plain c = true -> pat_text ts p -> pat_text (OLit c :: ts) (c :: p)
+| PT_any : forall ts p, pat_text ts p -> pat_text (OAny :: ts) (ch_quest :: p)
+| PT_star : forall ts p, pat_text ts p -> pat_text (OStar :: ts) (ch_star :: p)
+| PT_class : forall (neg dash : bool) items ts p,
+    tok_ok (OClass neg items) = true -> pat_text ts p ->
+    pat_text (OClass neg items :: ts)
+             (ch_lbrk :: (if neg then [ch_bang] else []) ++ render_items items
+                      ++ (if dash then [ch_minus] else []) ++ ch_rbrk :: p)
+| PT_alt : forall alts ts p,
+    tok_ok (OAlt alts) = true -> pat_text ts p ->
+    pat_text (OAlt alts :: ts) (ch_lbrace :: render_alts alts ++ ch_rbrace :: p).
+
+(* number of '/' = number of parts *)
+Fixpoint count_slash (a : list Z) : nat :=
+  match a with [] => O | c :: t => if c =? ch_slash then S (count_slash t) else count_slash t end.
+Fixpoint count_slash_toks (ts : list otok) : nat :=
+  match ts with
+  | [] => O
+  | OLit c :: r => if c =? ch_slash then S (count_slash_toks r) else count_slash_toks r
+  | _ :: r => count_slash_toks r
+  end.
